@@ -343,3 +343,60 @@ Print Assumptions C14H_join_writes_only_initial_partial.
 Print Assumptions C14H_bus_carries_no_transient.
 Print Assumptions C14H_replica_step_partial.
 Print Assumptions C14H_replica_after_notice_partial.
+
+(* ------------------------------------------------------------------ history level (proofs/Hub_transient_hist.v) *)
+(* The replica of a session: ghost state computed from the outputs only (Hub_transient_nr.gout: a hello reply
+   binds the connection to the session, room / transient messages written to a bound connection are applied with
+   tapply = corr/Hub_preds.apply_trans), replayed over the pending queue of a session that has no connection.
+   "Equals" is literal equality of the association lists (hence the same lookup for every key).
+   Semantics: Hub_wf.run - one operation at a time, queued publications delivered in any order. *)
+From Verif Require Import proofs.Hub_pending proofs.Hub_isolation proofs.Hub_transient_bus proofs.Hub_transient_nr proofs.Hub_transient_hist.
+
+(* T2, one step, for every state with the invariants of reachable states: a change of a room's data (client request
+   or delivered room request) keeps "the replica of every member, replayed over its queue, is the data of its room" *)
+Theorem C14H_replica_kept_by_change : forall h g k r del key val, WF h -> Inv h -> RI h g -> room_of h k = Some r ->
+  RI (fst (transient_update h k r del key val)) (gouts g (snd (transient_update h k r del key val))).
+Proof. exact ri_transient_update. Qed.
+
+(* T2 over a resume: the hello that resumes a session keeps the invariant - the replica at the time of the cut,
+   continued by what the resume flushes, is the data of the room (a queue with a closing message: the session is
+   closed).  Assumes: no session is attached to the connection; the queue holds no hello reply. *)
+Theorem C14H_replica_over_resume_partial : forall h g c cn i, Inv h -> RI h g ->
+  (forall y t, get_sess h y = Some t -> s_conn t <> Some c) ->
+  (forall n s, i = IdPriv n -> get_sess h n = Some s -> hello_free (s_pending s)) ->
+  RI (fst (do_hello h c cn (HResume i))) (gouts g (snd (do_hello h c cn (HResume i)))).
+Proof. exact ri_resume. Qed.
+
+(* T2, the step of the induction over histories, for the covered operations (every operation except OJoin,
+   OInternal and the delivery of a publication that is not a transient room request; a resume under hello_free) *)
+Theorem C14H_replica_step_covered_partial : forall h g o, WF h -> Inv h -> Bij h -> BusNT h -> RI h g -> covered h o ->
+  RI (fst (step h o)) (gouts g (snd (step h o))).
+Proof. exact ri_step. Qed.
+
+(* T2 for histories, partial: from any state with the invariants of reachable states in which the replicas are right,
+   every continuation made of covered operations - deliveries in any order - keeps them right *)
+Theorem C14H_replica_converges_history_partial : forall ops h g, WF h -> Inv h -> TI h -> BusNT h -> RI h g -> covered_hist h ops ->
+  let st := grun (h, g) ops in WF (fst st) /\ Inv (fst st) /\ RI (fst st) (snd st).
+Proof. exact ri_run. Qed.
+
+(* what RI gives for one member: its room exists, the replica replayed over the queue is (room, data of the room);
+   with a connection the queue is empty and the replica itself is the data *)
+Theorem C14H_replica_invariant_means : forall h g, WF h -> Inv h -> RI h g -> replica_ok h g.
+Proof. exact ri_replica_ok. Qed.
+
+(* the shape of the bus in every reachable state: no queued publication carries a hello reply or a transient message,
+   a queued room message SRoom r travels on the subject of room r only *)
+Theorem C14H_bus_shape : forall limits gated ops, BusOK (run (init limits gated) ops).
+Proof. exact busok_reachable. Qed.
+
+(* the replica function is the one the differential check applies to the implementation's observations *)
+Theorem C14H_replica_is_apply_trans : forall v m, tapply v m = Hub_preds.apply_trans v m.
+Proof. exact tapply_is_apply_trans. Qed.
+
+Print Assumptions C14H_replica_kept_by_change.
+Print Assumptions C14H_replica_over_resume_partial.
+Print Assumptions C14H_replica_step_covered_partial.
+Print Assumptions C14H_replica_converges_history_partial.
+Print Assumptions C14H_replica_invariant_means.
+Print Assumptions C14H_bus_shape.
+Print Assumptions C14H_replica_is_apply_trans.
